@@ -730,14 +730,16 @@ var mul64 = []*instructionType{
 			r1, r2 := regLoad(rs1, i, width64), regLoad(rs2, i, width64)
 			r1Abs := exprtools.Abs(r1, width64)
 			mul := expr.NewBinary(expr.Mul, r1Abs, r2, width128)
-			shift := expr.ConstFromUint[uint8](64)
-			shifted := expr.NewBinary(expr.Rsh, mul, shift, width128)
-			val := exprtools.BoolCond(
+			// The whole product is negated if rs1 is negative.
+			signed := exprtools.BoolCond(
 				exprtools.IntNegative(r1, width64),
-				shifted,
-				exprtools.Negate(shifted, width64),
-				width64,
+				exprtools.Negate(mul, width128),
+				mul,
+				width128,
 			)
+			shift := expr.ConstFromUint[uint8](64)
+			shifted := expr.NewBinary(expr.Rsh, signed, shift, width128)
+			val := exprtools.NewWidthGadget(shifted, width64)
 			return []expr.Effect{regStore(val, i, width64)}
 		},
 	}, {
